@@ -21,6 +21,16 @@ import (
 
 const VerifDir = "/verif"
 
+// OutDir is where evidence and replay files go: /verif, unless VERIF_OUT names another directory (the
+// detection-regression runs of bin/seedall on a scratch copy of the repository must not overwrite the
+// evidence of the real tree).
+func OutDir() string {
+	if d := os.Getenv("VERIF_OUT"); d != "" {
+		return d
+	}
+	return VerifDir
+}
+
 // Violation is one execution of the real code that contradicts a property.
 type Violation struct {
 	Property  string `json:"property"`
@@ -295,7 +305,7 @@ func parent(d *Driver, tier string) int {
 		n = 1
 	}
 	// replay artefacts of earlier runs of this property are stale
-	if old, _ := filepath.Glob(filepath.Join(VerifDir, "replays", d.Prop, "*.json")); len(old) > 0 {
+	if old, _ := filepath.Glob(filepath.Join(OutDir(), "replays", d.Prop, "*.json")); len(old) > 0 {
 		for _, f := range old {
 			os.Remove(f)
 		}
@@ -493,7 +503,7 @@ func merge(m, r *Result) {
 }
 
 func writeReplay(prop string, v *Violation) string {
-	dir := filepath.Join(VerifDir, "replays", prop)
+	dir := filepath.Join(OutDir(), "replays", prop)
 	os.MkdirAll(dir, 0o755)
 	h := sha1.Sum([]byte(v.Signature))
 	p := filepath.Join(dir, fmt.Sprintf("%x.json", h[:6]))
@@ -567,9 +577,9 @@ func writeEvidence(d *Driver, tier string, m *Result, knownHit []string, unliste
 		"wall_s":      wall,
 		"violations":  unlisted,
 	}
-	os.MkdirAll(filepath.Join(VerifDir, "evidence"), 0o755)
+	os.MkdirAll(filepath.Join(OutDir(), "evidence"), 0o755)
 	b, _ := json.MarshalIndent(ev, "", " ")
-	os.WriteFile(filepath.Join(VerifDir, "evidence", d.Prop+".json"), b, 0o644)
+	os.WriteFile(filepath.Join(OutDir(), "evidence", d.Prop+".json"), b, 0o644)
 }
 
 // Scratch returns a private tmpfs directory for this worker.
